@@ -36,12 +36,14 @@ class AppBaseError(BaseException):
 
 
 EXC = {"Exception": AppError, "OSError": AppOSError, "BaseException": AppBaseError,
-       "ValueError": ValueError, "SystemExit": SystemExit, "KeyError": KeyError}
+       "ValueError": ValueError, "SystemExit": SystemExit, "KeyError": KeyError,
+       "ConnectionRefusedError": ConnectionRefusedError, "BrokenPipeError": BrokenPipeError,
+       "TimeoutError": TimeoutError, "ConnectionResetError": ConnectionResetError}
 
 
 def make_exc(name, marker):
     cls = EXC[name]
-    if cls is AppOSError:
+    if issubclass(cls, OSError):
         return cls(5, "app-failure-" + marker)
     return cls("app-failure-" + marker)
 
